@@ -710,6 +710,12 @@ func (t *tread) handle(cs *connState) message {
 		return newErr(linux.ENOBUFS)
 	}
 
+	// The reply (header, count, data) must fit in the negotiated message
+	// size; a read may always return less than was asked for.
+	if msize := atomic.LoadUint32(&cs.messageSize); msize >= headerLength+4 && t.Count > msize-(headerLength+4) {
+		t.Count = msize - (headerLength + 4)
+	}
+
 	var n int
 	data := cs.readBufPool.Get().(*[]byte)
 	// Retain a reference to the full length of the buffer.
@@ -1048,6 +1054,12 @@ func (t *treaddir) handle(cs *connState) message {
 		return newErr(linux.EBADF)
 	}
 	defer ref.DecRef()
+
+	// The reply (header, count, entries) must fit in the negotiated message
+	// size; a listing may always return fewer entries than were asked for.
+	if msize := atomic.LoadUint32(&cs.messageSize); msize >= headerLength+4 && t.Count > msize-(headerLength+4) {
+		t.Count = msize - (headerLength + 4)
+	}
 
 	var entries []Dirent
 	if err := ref.safelyRead(func() (err error) {
